@@ -1,3 +1,9 @@
 SPECIFICATION TraceSpec
+CONSTANTS
+  Pods = {"p1", "p2"}
+  Nodes = {"n1", "n2", "n3"}
+  Wls = {"w1", "w2", "w3", "w4"}
+  Idents = {"i1"}
+  MaxOps = 0
 POSTCONDITION TraceAccepted
 CHECK_DEADLOCK FALSE
